@@ -114,6 +114,40 @@ func TestC11LargeLog(t *testing.T) {
 			cleanup()
 		}
 	}
+	// durable-streams with the bus's default options (no replay batch size given): logs of up to a
+	// hundred events - one server response - are replayed completely
+	for _, L := range []int{20, 33, 60, 99, 100} {
+		idx++
+		if !run.Mine(idx) {
+			continue
+		}
+		o, err := stores.Open("durable", scratch)
+		if err != nil {
+			t.Fatal(err)
+		}
+		for k := 1; k <= L; k++ {
+			if _, err := o.Store.Append(ctx, &ebu.Event{Type: "c11.A", Data: json.RawMessage(fmt.Sprintf(`{"ID":%d}`, k)), Timestamp: time.Unix(int64(1700000000+k), 0).UTC()}); err != nil {
+				t.Fatal(err)
+			}
+		}
+		bus := ebu.New(ebu.WithStore(o.Store))
+		next, bad := 1, ""
+		err = bus.Replay(ctx, ebu.OffsetOldest, func(e *ebu.StoredEvent) error {
+			var d struct{ ID int }
+			json.Unmarshal(e.Data, &d)
+			if d.ID != next && bad == "" {
+				bad = fmt.Sprintf("event %d delivered where %d was due", d.ID, next)
+			}
+			next++
+			return nil
+		})
+		if err != nil || bad != "" || next-1 != L {
+			run.Violation("durable:default-options-replay-incomplete", fmt.Sprintf("durable-streams store, log of %d events, bus with default options, replay from the start: Replay returned %v after delivering %d of %d events %s", L, err, next-1, L, bad), map[string]any{"log_len": L, "delivered": next - 1})
+		}
+		run.Case(fmt.Sprintf("durable|default-options|L%d", L), true)
+		o.Close()
+		o.Remove()
+	}
 	// a few events, one of them very large (5 MiB, then 9 MiB): no page is "full" before it holds
 	// at least the next event, whatever its size
 	for bi, kind := range []string{"memory-paged", "sqlite-paged", "sqlite-mem", "sqlite-file", "durable"} {
